@@ -10,8 +10,8 @@ C["C02"] = ("UsedUnitContainerToCdr / MultiUnitUsageToCdr / TriggersToCdr / Time
                "Not covered: the BER marshalling of the record (trusted BerMarshalWithParams), 'never in the record of another subscriber' across subscribers (pool lookup is an assumed contract).")
 C["C03"] = ("dumpCdrFile hands Encoding a structure whose FileLength (mod 2^32), HeaderLength, NumberOfCdrsInFile and every CdrLength describe exactly the bytes written, for any number of records (loop invariants plus an induction over the recursive size specification, 'preserved' clause); a record that fails to marshal or exceeds 65535 octets is refused; (CDRFile).Encoding is proved to write header length + sum of record sizes octets and the header layout, for any number of records.",
                "Assumed: files shorter than 4 GiB (stated at the call of Encoding), BerMarshalWithParams returns a complete BER value (C04 covers its primitives only), os.WriteFile succeeds. The size estimate that splits records in ChargingDataUpdate is not verified: an oversize record is refused (400) rather than written truncated.")
-C["C04"] = ("Primitive encoders (INTEGER/ENUMERATED minimal two's complement, BOOLEAN, OCTET/character strings, BIT STRING with unused-bit count 0..7) and appendTagAndLen (class/constructed bits, minimal base-128 tag number, minimal definite length) are proved equal to specification functions written from X.690, for all values; no panics in them.",
-               "Not covered (not proved, not claimed): the reflection-driven structure walk (makeField/ParseField, SEQUENCE/SET/CHOICE composition, OPTIONAL, IMPLICIT/EXPLICIT by parameter) - govc has no model of package reflect.")
+C["C04"] = ("Primitive encoders (INTEGER/ENUMERATED minimal two's complement, BOOLEAN, OCTET/character strings, BIT STRING with unused-bit count 0..7) and appendTagAndLen (class/constructed bits, minimal base-128 tag number, minimal definite length) are proved equal to specification functions written from X.690, for all values; no panics in them. Over the `encoder` interface (assumed method contracts that every implementation is verified against): a constructed value's length is the sum of its children's lengths (structEncoder.Len, any number of children), and berTypeEncoder writes tag-and-length then the value right behind it, inside Len() octets.",
+               "Not covered (not proved, not claimed): structEncoder.Encode (undecided), the reflection-driven structure walk (makeField/ParseField, SEQUENCE/SET/CHOICE composition, OPTIONAL, IMPLICIT/EXPLICIT by parameter) - govc has no model of package reflect.")
 C["C05"] = ("decode(encode(v)) == v as lemmas over the real primitive encoder/decoder pairs: INTEGER/ENUMERATED of any sign and width (int64), BOOLEAN, BIT STRING of any length; the decoders' contracts state exact results for every input.",
                "Not covered: composite types (reflection), see C04.")
 C["C07"] = ("The Diameter credit-control handler of pkg/abmf (handleCCR$1) is proved against its contract for every request: grant = min(requested, balance), stored balance lowered by the grant, final-unit indication iff requested > balance, refund/termination arithmetic exact, answer echoes Session-Id/type/number, unknown account changes no balance. The account table is a ghost map updated by the assumed mongoapi contracts.",
